@@ -18,6 +18,7 @@ DOC = {
         'C19.R3': 'release: increment by 1 under the lock; notify_one/notify_all post-dominates the increment',
         'C19.R4': 'both guard Drop impls call release on every path; access/access_owned call acquire before building the guard',
         'C19.R5': 'only Semaphore\'s own methods read or write the fields lock / cvar',
+        'C19.R9': 'no semaphore of the library starts with zero permits: the count is a multiple of the real size of a thread pool (current_num_threads() >= 1), a max(.., 1), or a positive constant - never a configured size, where 0 means automatic',
         'C19.R8': 'no descriptor or thread escapes the budget: every helper thread of the library that can block (opens a path, waits for a child, reads a stream to the end) is joined - directly, or by the Drop of the struct that keeps its JoinHandle - while the resource it waits for is still there (the stderr reaper of a transform opens the $OUT pipe for writing; joined in Drop for Execution before the reading end is closed)',
         'C19.R7': 'the open-file budget is counted in the unit the permits are spent in: one permit is taken per hashing task, and a task of a --transform run holds several descriptors (input file, pipes to the child, temporary copy, named pipe) - the number of permits is (RLIMIT_NOFILE - reserve) divided by at least the number of descriptor-opening call sites of one transform execution, with no floor above 1',
         'C19.R6': 'no call path from a region holding an RLIMIT_OPEN_FILES guard re-acquires that semaphore',
@@ -68,6 +69,7 @@ def run(ctx):
     r6(ctx)
     r7(ctx)
     r8(ctx)
+    r9(ctx)
 
 
 BLOCKING = r'OpenOptions::open$|^std::fs::File::open$|::wait$|::recv$|read_to_string$|read_to_end$|::lock$'
@@ -122,6 +124,29 @@ def r8(ctx):
                       'gone - the thread stays for the rest of the run together with the descriptor number its open() reserved; some hundred files later the process is out of descriptors although the '
                       'semaphore admits only a few tasks, and readable files fail with EMFILE' % (blocking[0].path.rsplit('::', 1)[-1], cb.where(blocking[0].line), (' (the handle is kept in %s.%s, whose Drop does not join it)' % owner) if owner else ''))
     ctx.floor(rule, 'spawned threads that can block', n, 1)
+
+
+def r9(ctx):
+    """A semaphore that gates progress is created with at least one permit."""
+    rule = 'C19.R9'
+    lib = ctx.lib
+    from ..analysis import slice_const_values
+    n = 0
+    for p_, b in sorted(lib.bodies.items()):
+        if re.search(r'(^|::|<)tests?(::|$)', p_) or b.kind == 'promoted':
+            continue
+        for c in b.calls(r'semaphore::Semaphore::new$'):
+            n += 1
+            sl = backslice(b, [c.args[0]])
+            pool = sl.has_call(r'ThreadPool::current_num_threads$|rayon::current_num_threads$')
+            floor1 = any(k.matches(r'^std::cmp::max$|Ord>::max$|Ord::max$') for k in sl.calls) and any(re.match(r'^[1-9]\d*(_\w+)?$', str(v)) for v in slice_const_values(lib, sl))
+            cfg = sorted(set(sl.field_names()) & {'sequential', 'random', 'parallelism', 'threads'})
+            const_pos = not sl.calls and not sl.params and not sl.field_names() and any(re.match(r'^[1-9]\d*(_\w+)?$', str(v)) for v in slice_const_values(lib, sl))
+            ctx.check((pool or floor1 or const_pos) and not (cfg and not floor1), rule, '%s|permits-positive' % p_, c.where(),
+                      'the number of permits is at least 1 (%s)' % ('a multiple of the real size of the thread pool' if pool else ('max(.., 1)' if floor1 else 'a positive constant')),
+                      'the number of permits of this semaphore comes from %s and nothing keeps it above zero: a configured pool size of 0 means "choose automatically" (`--threads 0`, `hdd:0`), rayon then builds a '
+                      'real pool, but a semaphore with 0 permits admits nobody - the thread that feeds the hashing tasks blocks before its first task and the run never ends' % (('the configured ' + '/'.join(cfg)) if cfg else 'a value that is not known to be positive'))
+    ctx.floor(rule, 'Semaphore::new sites in the library', n, 2)
 
 
 def r12(ctx, lib, b):
